@@ -10,6 +10,13 @@
 4. End to end (support; the search engine for failing inputs): an independent E-term physical
    network produces the measurements of random standards; public API calibrate + apply must
    return the DUT's S; saved error terms must satisfy the documented equations; ASan/UBSan/LSan.
+5. Numeric ties (lib/calcore_num.py): the executable models Cal/ApplyModel.v (fill_* as coded) and
+   Cal/SolveSimple.v (leakage means, assembly of a_matrix / b_vector, unity term, convert_ue14_to_e12),
+   extracted at the Gaussian rationals (ocaml/drv_calcore2), against the static fill_* functions /
+   vnacal_apply_m (harness/calcore_apply.c) and the systems handed to _vnacommon_mldivide /
+   _vnacommon_qrsolve by _vnacal_new_solve_simple plus the saved terms (harness/calcore_solve.c), on
+   dyadic inputs for which binary64 is exact: A, B and the coefficient matrices are compared as exact
+   rationals.  The theorems of Properties_C01.v part 1b are about these two models.
 """
 import os
 import re
@@ -17,6 +24,7 @@ import concurrent.futures
 
 import vplib
 import calcore
+import calcore_num
 from calcore import TYPES, dims_allowed
 
 GEN = os.path.join(vplib.COQDIR, "Gen")
@@ -429,7 +437,13 @@ def structural(ctx, exe):
 
 # =============================================================================== Coq obligations
 COQ_FILES = ["Gen/LayoutGen.v", "Cal/LayoutProofs.v", "Cal/TermsModel.v", "Cal/AddModel.v", "Cal/TermsSpec.v",
-             "Cal/TermsProofs.v", "Cal/CalAlgebra.v", "Properties_C01.v"]
+             "Cal/TermsProofs.v", "Cal/CalAlgebra.v",
+             # the numeric core as coded: models, symbolic layer, lemmas (every Lemma/Example = 1 obligation)
+             "Cal/Sym.v", "Cal/ApplyModel.v", "Cal/SolveSimple.v", "Cal/CalQI.v",
+             "Cal/ApplyProofs.v", "Cal/SolveProofs.v", "Cal/E12Proofs.v", "Cal/LeakProofs.v", "Cal/SolveUnique.v",
+             "Cal/ApplyIdentity.v", "Cal/AssembleIdentity.v", "Cal/LinUnique.v", "Cal/ApplyRecovers.v",
+             "Cal/SolveRecovers.v", "Cal/EndToEnd.v",
+             "Properties_C01.v"]
 
 
 def coq_part(ctx):
@@ -460,6 +474,17 @@ def coq_part(ctx):
                          "e2e calibrate/apply sweep, saved-terms residuals, documented layout table dims 1..6, structural tie")
 
 
+# =============================================================================== numeric ties
+def numeric(ctx):
+    """ApplyModel / SolveSimple (extracted at the Gaussian rationals) against the compiled fill_* functions,
+    vnacal_apply_m, and the linear systems / saved terms of _vnacal_new_solve_simple: exact comparison on
+    dyadic inputs.  Each tie records its obligation and, when it breaks, a violation whose replay is the
+    concrete input line / script on which model and library differ (lib/calcore_num.py)."""
+    quick = ctx.tier == "quick"
+    calcore_num.apply_tie(ctx, 6 if quick else 60)
+    calcore_num.solve_tie(ctx, 96 if quick else 1200)
+
+
 # =============================================================================== main
 def run(ctx):
     ctx.level = "proof"
@@ -468,6 +493,11 @@ def run(ctx):
         "mathcomp (ssreflect, algebra) for the general-n matrix theorems",
         "translator translate/layout.py (C text -> Gallina), validated exhaustively for dims 1..6 against the compiled _vnacal_layout",
         "hand-written models coq/Cal/TermsModel.v, AddModel.v tied by exact structural correspondence with the library",
+        "hand-written models coq/Cal/ApplyModel.v (fill_*), SolveSimple.v (leakage means, assembly, unity term, UE14->E12) tied by "
+        "exact comparison of A, B / a_matrix, b_vector on dyadic inputs (lib/calcore_num.py, harness/calcore_apply.c, calcore_solve.c)",
+        "symbolic layer coq/Cal/Sym.v (normal forms of rational functions) for fill_eq_spec, assembled_eq_matrix_cell, "
+        "ue14_to_e12_sound only; fill_solves, assembled_row_is_equation_cell and the composition theorems do not use it",
+        "LU / least-squares models coq/Lin/LuModel.v, LsSpec.v and their theorems (property C19)",
         "specification of the documented equations in coq/Cal/TermsSpec.v (hand-written from vnacal_layout.h)",
         "exact field arithmetic in place of binary64; LU/QR numerics and conditioning are outside every theorem",
         "OCaml extraction (ExtrOcamlBasic) and the glue in ocaml/glue.ml.inc; gcc, ASan/UBSan/LSan",
@@ -475,11 +505,14 @@ def run(ctx):
     ctx.assumptions = ["exact arithmetic stands for binary64 (rounding outside every theorem)",
                        "well-conditioned = coefficient matrices invertible in the exact model"]
     ctx.rule = ("one evaluation = one complete calibration scenario (random E-term network, random standards through "
-                "random entry points / port maps / matrix shapes, solve, apply or saved-term check) or one structural "
-                "configuration compared exactly; distinct non-trivial = scenarios that were accepted, solved and compared")
+                "random entry points / port maps / matrix shapes, solve, apply or saved-term check), one structural "
+                "configuration compared exactly, or one numeric case (error terms + measurement through fill_* / apply; "
+                "standards + measurements through the assembly of the linear systems) compared exactly with the "
+                "extracted model; distinct non-trivial = scenarios that were accepted, solved and compared")
     exe = ctx.build_harness("calcore_e2e", san=True, wrap=True, defines=["CALCORE_WRAP"])
     e2e(ctx, exe)
     directed(ctx, exe)
     layout_part(ctx)
     structural(ctx, exe)
+    numeric(ctx)
     coq_part(ctx)
